@@ -63,6 +63,15 @@ def case(cid, rng, kind, padded, est):
         X = (np.clip(X, -2, 2) + rng.integers(1, 3, size=f)) * Qden           # uncentred source (small: the residual stays in range)
         Y = (X @ Qm) // Qden + rng.integers(-2, 3, size=t) * Qden
         est = "default"
+    elif kind == "rankdef":
+        # a linear fit of deficient rank: a repeated target column, or a duplicated source column (any data is valid data)
+        f, t = max(f, 2), max(t, 2)
+        X = rng.integers(-4, 5, size=(n, f))
+        Y = rng.integers(-4, 5, size=(n, t))
+        if rng.random() < 0.6:
+            Y[:, -1] = Y[:, 0]
+        else:
+            X[:, -1] = X[:, 0]
     else:
         Y = rng.integers(-4, 5, size=(n, t))
         if kind == "noisy-linear":
@@ -116,8 +125,8 @@ def gen(args):
     rng = np.random.default_rng([sd, wid, 1818])
     out = []
     for i in core.timed(range(n)):
-        kind = ["random", "noisy-linear", "recover", "random", "noisy-linear", "recover", "offset"][i % 7]
-        padded = bool(rng.integers(2)) if kind != "offset" else False
+        kind = ["random", "noisy-linear", "recover", "random", "noisy-linear", "rankdef", "offset"][i % 7]
+        padded = bool(rng.integers(2)) if kind not in ("offset", "rankdef") else False
         est = "default" if padded else ["default", "lr0", "ridge"][int(rng.integers(3))]
         out.append(case("w%d-%d" % (wid, i), rng, kind, padded, est))
     return out
